@@ -112,6 +112,10 @@ type C09W struct {
 	// SinkKind: 0 a bare io.Writer; 1 additionally a Flush() error method (no sticky error); 2 additionally
 	// io.StringWriter and io.ReaderFrom
 	SinkKind int `json:",omitempty"`
+	// Feed > 0 (fixed histories xzW*, lzma2W, classic): the second half of the input is handed over by
+	// io.Copy from a bare reader (feedOf: 2 last bytes together with io.EOF, 3 short reads) instead of
+	// a Write call; io.Copy uses the writer's ReadFrom when it offers one
+	Feed int `json:",omitempty"`
 }
 
 type C09R struct {
@@ -122,6 +126,7 @@ type C09R struct {
 	Buf      int
 	Single   bool `json:",omitempty"` // xz reader with SingleStream set (it probes for a following byte)
 	Once     bool `json:",omitempty"` // the source fails once at the offset and answers normally afterwards (transient failure)
+	Drain    int  `json:",omitempty"` // how the caller takes the data out (drainOf): 1 / 2 io.Copy (uses a WriteTo method of the reader when there is one)
 	Trail    bool `json:",omitempty"` // SingleStream reader on a file with padding and a second stream behind the first: the end of the stream may never be reported
 }
 
@@ -302,6 +307,13 @@ func c09Writer(r *core.Run, p C09W) c09Run {
 		res.calls = append(res.calls, callRes{Call: call, N: n, Len: l, Err: err, Sink: len(fs.buf)})
 	}
 	h := len(in) / 2
+	second := func(w io.Writer, q []byte) (int, error) {
+		if p.Feed > 0 {
+			n, err := feedOf(w, q, p.Feed)
+			return int(n), err
+		}
+		return w.Write(q)
+	}
 	res.pan = core.Guard(func() {
 		switch p.Writer {
 		case "xzW", "xzW-crc64", "xzW-sha256", "xzW-none":
@@ -322,7 +334,7 @@ func c09Writer(r *core.Run, p C09W) c09Run {
 			}
 			n, err := w.Write(in[:h])
 			rec("Write", n, h, err)
-			n, err = w.Write(in[h:])
+			n, err = second(w, in[h:])
 			rec("Write", n, len(in)-h, err)
 			rec("Close", 0, 0, w.Close())
 			rec("Close2", 0, 0, w.Close())
@@ -391,7 +403,7 @@ func c09Writer(r *core.Run, p C09W) c09Run {
 			n, err := w.Write(in[:h])
 			rec("Write", n, h, err)
 			rec("Flush", 0, 0, w.Flush())
-			n, err = w.Write(in[h:])
+			n, err = second(w, in[h:])
 			rec("Write", n, len(in)-h, err)
 			rec("Close", 0, 0, w.Close())
 			rec("Close2", 0, 0, w.Close())
@@ -408,7 +420,7 @@ func c09Writer(r *core.Run, p C09W) c09Run {
 			}
 			n, err := w.Write(in[:h])
 			rec("Write", n, h, err)
-			n, err = w.Write(in[h:])
+			n, err = second(w, in[h:])
 			rec("Write", n, len(in)-h, err)
 			rec("Close", 0, 0, w.Close())
 			rec("Close2", 0, 0, w.Close())
@@ -464,6 +476,10 @@ func c09WriterJudge(r *core.Run, p C09W, base c09Run) {
 	}
 	site := fmt.Sprintf("%s fail@%s mode=%s", wname, what, mode)
 	desc := fmt.Sprintf("%s: sink call %d of %d fails (%s); history Write,Write,[Flush],Close,Close", p.Writer, p.FailAt, len(base.offs), mode)
+	if p.Feed > 0 {
+		site += " io.Copy"
+		desc += "; second half of the input fed by " + feedModeNames[p.Feed]
+	}
 	if p.SinkKind > 0 {
 		site += fmt.Sprintf(" sink-kind=%d", p.SinkKind)
 		desc += []string{"", "; the sink also has a Flush() error method", "; the sink is also an io.StringWriter and io.ReaderFrom"}[p.SinkKind]
@@ -591,9 +607,9 @@ func c09Reader(r *core.Run, s Stream, p C09R) {
 			return
 		}
 		opened = true
-		out, err, proto = readAll(rd, p.Buf, 1<<24)
+		out, err, proto = drainOf(rd, p.Drain, p.Buf, 1<<24)
 	})
-	desc := fmt.Sprintf("stream %s: source fails persistently at offset %d of %d (with data: %v), caller buffer %d, SingleStream=%v", s.Name, p.FailAt, len(s.Data), p.WithData, p.Buf, p.Single)
+	desc := fmt.Sprintf("stream %s: source fails persistently at offset %d of %d (with data: %v), caller buffer %d, SingleStream=%v, drained by %s", s.Name, p.FailAt, len(s.Data), p.WithData, p.Buf, p.Single, drainModeNames[p.Drain])
 	site := fmt.Sprintf("%sR source-fail@%s", s.Fmt, newSiteMap(s).at(minInt(p.FailAt, len(s.Data))))
 	if p.Single {
 		site = fmt.Sprintf("xzR(SingleStream) source-fail@%s", newSiteMap(s).at(minInt(p.FailAt, len(s.Data))))
@@ -683,7 +699,7 @@ func runC09(r *core.Run) {
 	if thorough(r) {
 		level = 1
 	}
-	r.Rule = "writers (xz multi-block, LZMA2 with Flush, classic LZMA through bufio and through io.ByteWriter) with history Write,Write,[Flush],Close,Close (five of them also on a sink that has a Flush method and on one that is an io.StringWriter / io.ReaderFrom): EVERY index k of the sink's Write/WriteByte calls of the fault-free run x {once, forever} x {0 accepted, half accepted}; plus LZMA2 raw chunks across the ring-buffer wrap, one Write spanning blocks, a Write that fills a 2 MiB chunk exactly; readers (all formats, the xz reader also with SingleStream, with and without data behind the first stream): EVERY source offset k fails {persistently, once (transient)} x {error alone, error with the last bytes} x caller buffer {1,4096}, and the caller goes on reading after the failure (no panic; end of stream only after the complete content); deviation bound 2 for sinks: every pair k1<k2 of once-failing sink calls on the short writer histories. non-trivial = distinct (subject, outcome class, call-result history / bytes delivered)"
+	r.Rule = "writers (xz multi-block, LZMA2 with Flush, classic LZMA through bufio and through io.ByteWriter) with history Write,Write,[Flush],Close,Close (five of them also on a sink that has a Flush method and on one that is an io.StringWriter / io.ReaderFrom; four of them with the second half of the input handed over by io.Copy): EVERY index k of the sink's Write/WriteByte calls of the fault-free run x {once, forever} x {0 accepted, half accepted}; plus LZMA2 raw chunks across the ring-buffer wrap, one Write spanning blocks, a Write that fills a 2 MiB chunk exactly; readers (all formats, the xz reader also with SingleStream, with and without data behind the first stream): EVERY source offset k fails {persistently, once (transient)} x {error alone, error with the last bytes} x caller buffer {1,4096} (persistent faults also with the data taken out by io.Copy), and the caller goes on reading after the failure (no panic; end of stream only after the complete content); deviation bound 2 for sinks: every pair k1<k2 of once-failing sink calls on the short writer histories. non-trivial = distinct (subject, outcome class, call-result history / bytes delivered)"
 	type job struct {
 		w    *C09W
 		base *c09Run
@@ -735,6 +751,25 @@ func runC09(r *core.Run) {
 			for k := 0; k < len(base.offs); k++ {
 				for _, forever := range []bool{false, true} {
 					jobs = append(jobs, job{w: &C09W{Writer: wn, FailAt: k, Forever: forever, SinkKind: sk}, base: &b})
+				}
+			}
+		}
+	}
+	// the second half of the input handed over by io.Copy from a bare reader
+	for _, wn := range []string{"xzW", "lzma2W", "lzmaW-bufio", "lzmaW-bytewriter"} {
+		for _, fd := range []int{2, 3} {
+			base := c09Writer(r, C09W{Writer: wn, FailAt: -1, Feed: fd})
+			if base.pan != nil || base.failed {
+				panic("C09: fault-free run failed")
+			}
+			if out, err := c09Decode(base.fmt, base.sink); err != nil || !bytes.Equal(out, base.input) {
+				r.Violate(core.MkCase("C09", "writer", C09W{Writer: wn, FailAt: -1, Feed: fd}), wn+" fault-free run invalid", fmt.Sprintf("no fault injected, input fed by %s", feedModeNames[fd]), fmt.Sprint(err), "valid stream")
+				continue
+			}
+			b := base
+			for k := 0; k < len(base.offs); k++ {
+				for _, forever := range []bool{false, true} {
+					jobs = append(jobs, job{w: &C09W{Writer: wn, FailAt: k, Forever: forever, Feed: fd}, base: &b})
 				}
 			}
 		}
@@ -833,6 +868,7 @@ func runC09(r *core.Run) {
 				if wd && k == 0 {
 					continue
 				}
+				jobs = append(jobs, job{s: s, rd: &C09R{Stream: s.Name, Level: level, FailAt: k, WithData: wd, Buf: 4096, Drain: 1 + k%2}})
 				for _, b := range []int{1, 4096} {
 					jobs = append(jobs, job{s: s, rd: &C09R{Stream: s.Name, Level: level, FailAt: k, WithData: wd, Buf: b}})
 					if !wd {
